@@ -46,7 +46,7 @@ class C02(PropBase):
                    "the twin must accept the stream in one delivery and reproduce the values sent, otherwise the case is a codec/lifecycle "
                    "matter (C01/C04/C08) and is discarded and counted",
                    "deep copies of a prepared session behave like the session"]
-    RUNS = {"quick": 1600, "thorough": 30000}
+    RUNS = {"quick": 1600, "thorough": 16000}
     BATCH = 8
     STEPS = {"quick": 400, "thorough": 400}
     REQUIRED_REACH = ("cut_in_longform_length", "residue_across_3_calls", "empty_chunk_with_residue", "three_pdus_completed_with_residue",
